@@ -38,6 +38,7 @@ def run(R):
         R.coverage["distribution"]["app_reader_cases"] = app["kinds"]
         R.add_cases(app["cases"], len(app["nontrivial"]), app["samples"])
     F.tcp_lifetime(R, test_exe)
+    F.transports(R, test_exe)
     snd = F.appsend_trace(R, test_exe, runner, 3 if R.quick else 60)
     if snd:
         R.coverage["distribution"]["app_sender_cases"] = snd["kinds"]
